@@ -372,9 +372,34 @@ def velocity_direct_checks(rng, n, report, counts):
         torch.set_default_dtype(torch.float64)
 
 
+def affine_velocity(p):
+    """SVF with the diagonal affine generator v(x) = (h_1 x_1, h_2 x_2): forward and inverse-after-forward images of points"""
+    out = []
+    for c in p["cases"]:
+        try:
+            g = Grid(size=tuple(c["size"]), align_corners=bool(c["align"]))
+            co = g.coords().double()
+            v = torch.stack([c["h"][d] * co[..., d] for d in range(2)], 0).unsqueeze(0)
+            params = Parameter(v) if c.get("as_parameter") else v
+            t = S.StationaryVelocityFieldTransform(g, params=params, steps=int(c["steps"]))
+            if c.get("pre_update"):
+                t.update()
+            ti = t.inv if c.get("inv_property") else t.inverse(link=bool(c.get("link")), update_buffers=bool(c.get("upd")))
+            x = torch.tensor([c["x"]], dtype=torch.float64)
+            with torch.no_grad():
+                y = t(x)
+                z = ti(y)
+            out.append({"y": y[0].tolist(), "z": z[0].tolist()})
+        except Exception as e:  # noqa
+            out.append({"error": type(e).__name__, "msg": str(e)[:200]})
+    return out
+
+
 def main():
     p = json.loads(sys.stdin.read())
-    if p["fn"] == "tensors":
+    if p["fn"] == "affine_velocity":
+        emit_json(affine_velocity(p))
+    elif p["fn"] == "tensors":
         emit_json(tensors(p))
     elif p["fn"] == "oracle":
         emit_json(oracle(p))
